@@ -252,6 +252,8 @@ var checks = map[string]*check{
 			{Name: "schedules", Kind: "explore", Scen: "stdio_sync", Inst: inst("sched", "sched"), Depths: depths([]int{2}, []int{2, 3}), Budget: budget(3*time.Minute, 20*time.Minute)},
 			// the real plugin.Serve (os.Stdout / os.Stderr swap, pipes, copy loops) in a real child whose garbage collector
 			// has run, against the real Client: byte-exact comparison per stream
+			// a hand-written net/rpc host (its own yamux) that half-closes its unused sending side of the two stdio streams and keeps reading
+			{Name: "hand-written-host", Kind: "explore", Scen: "raw_netrpc_host", Depths: depths([]int{1}, []int{1, 2}), Budget: budget(2*time.Minute, 10*time.Minute)},
 			// the real host against a hand-written gRPC plugin that forwards its output in chunks of any size (up to 70000 bytes)
 			{Name: "hand-written-peer", Kind: "explore", Scen: "raw_grpc_peer", Inst: inst("stdio-big", "stdio-big"), Depths: depths([]int{1}, []int{1, 2}), Budget: budget(2*time.Minute, 10*time.Minute)},
 			{Name: "real-serve", Kind: "enum", Bin: "e3.test", Test: "TestC11Proc"},
